@@ -1202,8 +1202,62 @@ def _lookahead_len(e) -> Optional[int]:
     return None
 
 
+# =========================================================================== R-5.8
+VALUE_KINDS = {"IDENTIFIER", "CONSTANT", "STRING", "CHAR_CONST", "COMMENT", "MULT_COMMENT"}
+
+
+def _needs_str(fn, node, depth=0):
+    """Does the value of *node* (a token's .value, None for keyword / punctuator tokens) get used as a string?
+    Returns the offending expression or None."""
+    p = parent(node)
+    if isinstance(p, ast.Attribute) and p.value is node:
+        return p                                   # method / attribute of str
+    if isinstance(p, ast.Subscript) and p.value is node:
+        return p
+    if isinstance(p, (ast.For, ast.comprehension)) and p.iter is node:
+        return p.iter
+    if isinstance(p, ast.BinOp):
+        return p
+    if isinstance(p, ast.Call) and text(p.func) in ("len", "os.path.splitext", "os.path.basename") and any(a is node for a in p.args):
+        return p
+    if isinstance(p, ast.Compare) and len(p.ops) == 1 and isinstance(p.ops[0], (ast.In, ast.NotIn)) and p.left is not node:
+        return p                                   # `x in value`
+    if isinstance(p, ast.Assign) and p.value is node and len(p.targets) == 1 and isinstance(p.targets[0], ast.Name) and depth < 2:
+        name = p.targets[0].id
+        for n in walk_fn(fn.node):
+            if isinstance(n, ast.Name) and n.id == name and isinstance(n.ctx, ast.Load) and (n.lineno, n.col_offset) > (p.lineno, p.col_offset):
+                r = _needs_str(fn, n, depth + 1)
+                if r is not None:
+                    return r
+    return None
+
+
+def rule_value_nullability(run, prog):
+    run.rule("R-5.8", "nullability of token text: Token.value is None for keyword and punctuator tokens; wherever a rule uses "
+             "it as a string (method call, iteration, slicing, concatenation, len) the token's kinds - from guards valid on "
+             "every CFG path or the re-validated precondition table - are value-bearing kinds only", floor=15)
+    from .c17 import all_reads
+    n = 0
+    for r in all_reads(prog):
+        if r.how != "value" or r.kind_source == "dead":
+            continue
+        use = _needs_str(r.fn, r.node)
+        if use is None:
+            continue
+        n += 1
+        ok = r.kinds is not None and r.kinds <= VALUE_KINDS
+        extra = sorted(r.kinds - VALUE_KINDS)[:6] if r.kinds is not None else None
+        run.ob("R-5.8", r.key.replace("::read[", "::value-as-str["), ok,
+               (f"`{text(use, 60)}` uses the token text as a string but the token may be of kind(s) {extra} whose value is "
+                f"None: AttributeError/TypeError traceback" if r.kinds is not None else
+                f"`{text(use, 60)}` uses the token text as a string but nothing bounds the token's kind ({r.kind_source})"),
+               r.node, kinds=(sorted(r.kinds)[:8] if r.kinds is not None else "unknown"), kind_source=r.kind_source)
+    run.require(n >= 15, f"only {n} string uses of token text found (floor 15)")
+
+
 # ===========================================================================
 def check(run, prog):
+    rule_value_nullability(run, prog)
     rule_ret(run, prog)
     rule_exc(run, prog)
     rule_rec(run, prog)
